@@ -116,8 +116,14 @@ def run(cmd, cwd=None, timeout=None, env=None, mem_kb_watch=None):
             pass
         if timeout is not None and time.time() - t0 > timeout:
             timed_out = True
-        if mem_kb_watch and _group_rss_exceeds(p.pid, mem_kb_watch):
-            killed_mem = True
+        if mem_kb_watch:
+            # kill only the runaway solver process; the driver (Kani) then reports that harness as failed
+            for pid in _group_rss_offenders(p.pid, mem_kb_watch):
+                try:
+                    os.kill(pid, signal.SIGKILL)
+                    out_chunks.append("\n[verif] RSS watchdog killed solver pid %d\n" % pid)
+                except ProcessLookupError:
+                    pass
         if timed_out or killed_mem:
             try:
                 os.killpg(p.pid, signal.SIGKILL)
@@ -130,6 +136,31 @@ def run(cmd, cwd=None, timeout=None, env=None, mem_kb_watch=None):
     if killed_mem:
         out += "\n[verif] killed: a solver process exceeded the RSS watchdog\n"
     return p.returncode, out, time.time() - t0, (timed_out or killed_mem)
+
+
+def _group_rss_offenders(pgid, limit_kb):
+    out = []
+    try:
+        for pid in os.listdir("/proc"):
+            if not pid.isdigit():
+                continue
+            try:
+                with open("/proc/%s/stat" % pid) as f:
+                    st = f.read()
+                rest = st[st.rfind(")") + 2:].split()
+                if int(rest[2]) != pgid:
+                    continue
+                with open("/proc/%s/status" % pid) as f:
+                    for line in f:
+                        if line.startswith("VmRSS:"):
+                            if int(line.split()[1]) > limit_kb:
+                                out.append(int(pid))
+                            break
+            except (OSError, ValueError, IndexError):
+                continue
+    except OSError:
+        pass
+    return out
 
 
 def _group_rss_exceeds(pgid, limit_kb):
